@@ -14,7 +14,7 @@ EXTENDS Util
    deletion extends one base beyond the reference allele.  (A read that starts right after the anchor of
    an insertion, or ends at the anchor, is a boundary read: it neither fully covers the variant nor is
    it disjoint from it - the property leaves such partially overlapping reads unconstrained.) *)
-CoverEnd(v) == v.pos + v.reflen + (IF v.kind \in {2, 3} THEN 1 ELSE 0)
+CoverEnd(v) == v.pos + v.reflen + (IF v.kind \in {2, 3, 5} THEN 1 ELSE 0)    \* 5 = multi-allelic record (may contain indel alleles)
 BlockCovers(b, v) == b[1] <= v.pos /\ CoverEnd(v) <= b[2]
 BlockCoversStrict(b, v) == b[1] < v.pos /\ v.pos + v.reflen < b[2]
 BlockOverlaps(b, v) == b[1] < CoverEnd(v) /\ v.pos < b[2]
